@@ -113,6 +113,12 @@ class Fixture:
                ('absolute', t), ('file3', 'file://' + q(t)), ('file_localhost', 'file://localhost' + q(t)),
                ('FILE_upper', 'FILE://' + q(t)), ('slashes3', '//' + t), ('slashes4', '///' + t), ('file_slashes5', 'file://///' + q(t).lstrip('/')),
                ('pct_dots', q(rel).replace('..', '%2E%2E') if '..' in rel else './%2E/' + q(rel)),
+               # dot segments escaped one and two levels deeper than a single decoding undoes (a location is decoded, collapsed,
+               # encoded again, compared, and decoded once more when it is opened)
+               ('pct2_dots', q(rel).replace('..', '%252e%252e') if '..' in rel else None),
+               ('pct3_dots', q(rel).replace('..', '%25252e%25252e') if '..' in rel else None),
+               ('dot_pct2', q(rel).replace('..', '.%252e') if '..' in rel else None),
+               ('sub_pct2', 'sub/%252e%252e/' + q(rel)),
                ('pct_slash', q(rel).replace('/', '%2F') if '/' in rel else None),
                ('backslash', rel.replace('/', '\\') if '/' in rel else None)]
         return [(n, s) for n, s in out if s is not None]
